@@ -170,7 +170,22 @@ Th* pick(Th* cur, bool cur_yields) {
   if (cur && cur->st == RUNNABLE && !cur_yields) r.push_back(cur);
   for (auto t : G.threads)
     if (t->st == RUNNABLE && t != cur) r.push_back(t);
-  if (r.empty() && cur && cur->st == RUNNABLE) r.push_back(cur);
+  if (r.empty() && cur && cur->st == RUNNABLE) {
+    // the only runnable thread yields (poll loop with sched_yield) while the others sleep or wait with a deadline:
+    // yielding lets the time pass - jump to the earliest deadline instead of burning the step budget 50 ns at a time
+    if (cur_yields) {
+      uint64_t dl = UINT64_MAX;
+      for (auto t : G.threads)
+        if ((t->st == SLEEPING || t->st == BLOCKED_FUTEX) && t->deadline < dl) dl = t->deadline;
+      if (dl != UINT64_MAX && dl > G.vtime) {
+        G.vtime = dl;
+        wake_due();
+        for (auto t : G.threads)
+          if (t->st == RUNNABLE && t != cur) r.push_back(t);
+      }
+    }
+    r.push_back(cur);
+  }
   if (r.empty()) {
     uint64_t dl = UINT64_MAX;
     for (auto t : G.threads)
